@@ -413,6 +413,57 @@ brk('c19_guard_underscore', 'C19', REF, '''                if !name.starts_with(
 brk('c19_accu_not_private', 'C19', MAC, '''    let init = helper.next_expr(Expr::Literal(Boolean(false)));
     let result_binding = "@result".to_string();''', '''    let init = helper.next_expr(Expr::Literal(Boolean(false)));
     let result_binding = "result".to_string();''')
+# ---- C04
+GENP = 'antlr/src/gen/celparser.rs'
+brk('c04_calc_right_assoc', 'C04', GENP, '''					recog.calc_rec(3)?;''', '''					recog.calc_rec(2)?;''')
+brk('c04_swap_operands_calc', 'C04', PAR, '''                        Some(op) => {
+                            self.global_call_or_macro(op_id, op.to_string(), vec![lhs, rhs])
+                        }
+                    }
+                } else {
+                    self.report_error::<ParseError, _>(
+                        ctx.start().deref(),
+                        None,
+                        "Incomplete `CalcContext`!",''', '''                        Some(op) => {
+                            self.global_call_or_macro(op_id, op.to_string(), vec![rhs, lhs])
+                        }
+                    }
+                } else {
+                    self.report_error::<ParseError, _>(
+                        ctx.start().deref(),
+                        None,
+                        "Incomplete `CalcContext`!",''')
+brk('c04_balanced_tree_swapped', 'C04', PAR, '''                args: vec![left, right],''', '''                args: vec![right, left],''')
+brk('c04_parity_lost_again', 'C04', PAR, '''                if ctx.ops.len() % 2 == 0 {
+                    return self.visit(member.as_ref());
+                }
+                let op_id = self.helper.next_id(&ctx.ops[0]);
+                let target = self.visit(member.as_ref());
+                self.global_call_or_macro(op_id, operators::NEGATE.to_string(), vec![target])''', '''                let op_id = self.helper.next_id(&ctx.ops[0]);
+                let target = self.visit(member.as_ref());
+                self.global_call_or_macro(op_id, operators::NEGATE.to_string(), vec![target])''')
+brk('c04_ternary_branches_swapped', 'C04', PAR, '''                        vec![result, if_true, if_false],''', '''                        vec![result, if_false, if_true],''')
+brk('c04_operator_table_ge_is_gt', 'C04', 'antlr/src/ast/operators.rs', '''    (">=", GREATER_EQUALS),''', '''    (">=", GREATER),''')
+brk('c04_index_operands_swapped', 'C04', PAR, '''                        vec![target, index],''', '''                        vec![index, target],''')
+brk('c04_or_terms_reversed', 'C04', PAR, '''            for (i, op) in ctx.ops.iter().enumerate() {
+                let next = self.visit(rest[i].deref());
+                let op_id = self.helper.next_id(op);
+                l.add_term(op_id, next)
+            }
+            l.expr()
+        }
+    }
+
+    fn visit_conditionalAnd''', '''            for (i, op) in ctx.ops.iter().enumerate() {
+                let next = self.visit(rest[rest.len() - 1 - i].deref());
+                let op_id = self.helper.next_id(op);
+                l.add_term(op_id, next)
+            }
+            l.expr()
+        }
+    }
+
+    fn visit_conditionalAnd''')
 # ---- C05
 brk('c05_refcell_cache', 'C05', CTXF, '''    Root {
         functions: FunctionRegistry,
